@@ -50,9 +50,10 @@ type Opt struct {
 	Cmd *Cmd
 
 	// Initial is the pre-existing content stored in the field before the parser is built (nil = zero value)
-	Initial   []string      // texts converted through the reference functions (multi: several)
-	initAlias reflect.Value // the program's own reference to the list / map it stored (set by setInitial)
-	initCanon string
+	Initial        []string      // texts converted through the reference functions (multi: several)
+	EnvDelimViaAPI bool          // the delimiter is not declared by tag: the program assigns Option.EnvDefaultDelim after the parser is built
+	initAlias      reflect.Value // the program's own reference to the list / map it stored (set by setInitial)
+	initCanon      string
 
 	idx int
 	Val reflect.Value
@@ -272,7 +273,7 @@ func (o *Opt) Tag() string {
 	if o.Env != "" {
 		tagKV(&sb, "env", o.Env)
 	}
-	if o.EnvDelim != "" {
+	if o.EnvDelim != "" && !o.EnvDelimViaAPI {
 		tagKV(&sb, "env-delim", o.EnvDelim)
 	}
 	truthy := o.TruthText
